@@ -3224,3 +3224,62 @@ func liveIndexesAreReadUnderTheLock(c *Ctx, r *Report, rule string) {
 	}
 	r.Floor(rule, "uses of the live indexes in the locking methods of the log", n, 5)
 }
+
+// predecessorListNotCut: in Append as declared, the local handed to the new entry as Next is never resliced with a
+// bound — every head gathered into it stays in it (rule id is a parameter).
+func predecessorListNotCut(c *Ctx, r *Report, rule string) {
+	p := c.P
+	app := orig(p.FuncI("", "IPFSLog", "Append"))
+	var nextObj types.Object
+	walkNoLit(app.Body, func(n ast.Node) bool {
+		if kv, ok := n.(*ast.KeyValueExpr); ok {
+			if k, ok := kv.Key.(*ast.Ident); ok && k.Name == "Next" {
+				if v, ok := ast.Unparen(kv.Value).(*ast.Ident); ok {
+					if cl, ok := p.parent[kv].(*ast.CompositeLit); ok && isNamed(p.TypeOf(app, cl), p.pkgPath("entry"), "Entry") {
+						nextObj = p.ObjOf(app, v)
+					}
+				}
+			}
+		}
+		return true
+	})
+	if nextObj == nil {
+		return // R-C04.12 reports the shape it cannot read
+	}
+	nas := 0
+	walkNoLit(app.Body, func(n ast.Node) bool {
+		as, ok := n.(*ast.AssignStmt)
+		if !ok {
+			return true
+		}
+		for i, l := range as.Lhs {
+			id, ok := ast.Unparen(l).(*ast.Ident)
+			if !ok || p.ObjOf(app, id) != nextObj {
+				continue
+			}
+			nas++
+			var rhs ast.Expr
+			if len(as.Rhs) == len(as.Lhs) {
+				rhs = as.Rhs[i]
+			} else if len(as.Rhs) == 1 {
+				rhs = as.Rhs[0]
+			}
+			cut := false
+			if rhs != nil {
+				ast.Inspect(rhs, func(m ast.Node) bool {
+					if se, ok := m.(*ast.SliceExpr); ok && (se.Low != nil || se.High != nil) {
+						if x, ok := ast.Unparen(se.X).(*ast.Ident); ok && p.ObjOf(app, x) == nextObj {
+							cut = true
+						}
+					}
+					return !cut
+				})
+			}
+			r.Check(!cut, rule, r.Key(rule, app, "next-assigned", ""), as.Pos(),
+				"the predecessor list of the new entry is only added to",
+				"the list handed to the new entry as Next is cut to a part of itself: with more heads than the bound, the heads left out are not named as predecessors — the entry does not dominate them, and since it becomes the single head their branches drop out of every later view")
+		}
+		return true
+	})
+	r.Floor(rule, "assignments to the new entry's predecessor list", nas, 1)
+}
